@@ -12,7 +12,7 @@ RULE = (
     "In one running process, generated sequences of events over a generated program: re-define a memento or plain function (any edit kind of C01: literals, nested constants, defaults, "
     "set/tuple members, call-edge retarget, hide/unhide), rebind a tracked variable, mutate a list/dict in place, define a symbol that was referenced but undefined (or bound to an opaque placeholder object) so far, move a function to another cluster, rebind a function's name to its underlying plain function and back to the saved memento object (plain assignments), replace a memento "
     "function by a plain one and back, lock the clusters around a variable change, with a version query of every memento function after every event (or only at the end), plus queries through "
-    "freshly created modifier clones (partial, force_local, with_context_args), through fn_reference() and through an unregistered MementoFunction(fn, register_fn=False). Oracle: a fresh forked "
+    "freshly created modifier clones (partial, force_local, with_context_args; asked either after or BEFORE the function they are cloned from), through fn_reference() and through an unregistered MementoFunction(fn, register_fn=False). Oracle: a fresh forked "
     "process builds the resulting program (the final namespace: latest definition of each name, each as its own cell, in definition order) and computes the versions. A query must succeed and equal the fresh value, except while the cluster is locked "
     "(then it must only not raise). Generators: all event sequences of length <= 2 (quick) / 3 (thorough) over a fixed 3-function/1-variable program with a 11-event alphabet (exhaustive) + Hypothesis "
     "sequences of up to 6/10 events over generated programs. Non-trivial = a query separated from the previous query of the same function by an event that changes that function's fresh version; "
@@ -68,11 +68,11 @@ SMALL_EVENTS = [
 def small_scope(max_len):
     for n in range(1, max_len + 1):
         for seq in itertools.product(range(len(SMALL_EVENTS)), repeat=n):
-            for every in (True, False):
+            for every, clone_first in ((True, False), (False, False), (True, True), (False, True)):
                 p = base_program()
                 if sum(seq) % 2:
                     progs.find(p, "f2")["late"] = "placeholder"
-                yield {"program": p, "events": [SMALL_EVENTS[i] for i in seq], "query_every": every,
+                yield {"program": p, "events": [SMALL_EVENTS[i] for i in seq], "query_every": every, "clone_first": clone_first,
                        "clone_fn": "f0", "src": "small-scope"}
 
 
@@ -174,6 +174,11 @@ def execute(case, scratch):
                         if f["name"] == case.get("clone_fn"):
                             for k in QUERY_KINDS[1:]:
                                 q.append([f["mod"], f["name"], k])
+                if case.get("clone_first"):
+                    # the freshly created clones are asked before anything asked the function they are cloned from
+                    cf = case.get("clone_fn")
+                    rank = {"force_local": 0, "ctx": 1, "partial": 2, "unregistered": 3, "ref": 4, "plain": 5}
+                    q.sort(key=lambda e: (0, rank[e[2]]) if e[1] == cf else (1, 0))
             spec_steps.append({"lock": st["lock"], "cells": st["cells"], "queries": q})
         live = proc.forkrun(progrun.run_events, {"init_cells": progs.render_cells(p0), "pkg": p0["pkg"], "modules": p0["modules"],
                                                  "store": os.path.join(d, "store"), "steps": spec_steps})
@@ -212,8 +217,8 @@ def execute(case, scratch):
             if out.violations:
                 break
         out.nontrivial = changed_between
-        out.labels = sorted({"ev:" + s["label"] for s in steps[1:]}) + ["src:" + case.get("src", "random"), "query-every" if every else "query-at-end"]
-        out.nt_key = [case["program"], case["events"], every]
+        out.labels = sorted({"ev:" + s["label"] for s in steps[1:]}) + ["src:" + case.get("src", "random"), "query-every" if every else "query-at-end"] + (["clones-asked-first"] if case.get("clone_first") else [])
+        out.nt_key = [case["program"], case["events"], every, bool(case.get("clone_first"))]
         out.render = {"events": [s["label"] for s in steps[1:]], "query_every": every, "src": case.get("src", "random")}
         return out
     finally:
@@ -247,7 +252,7 @@ def strategy(thorough):
                 dd["late"] = draw(st.sampled_from([True, "placeholder"])) if dd["memento"] else True
         cands = [f["name"] for f in progs.fns(p) if f["memento"]]
         return {"program": p, "events": draw(st.lists(ev, min_size=1, max_size=10 if thorough else 6)),
-                "query_every": draw(st.booleans()), "clone_fn": draw(st.sampled_from(cands)), "src": "random"}
+                "query_every": draw(st.booleans()), "clone_first": draw(st.booleans()), "clone_fn": draw(st.sampled_from(cands)), "src": "random"}
 
     return case()
 
